@@ -298,7 +298,7 @@ impl SignatureConverter<'_> {
 }
 
 fn is_type_eq_ident(ty: &syn::Type, ident: &syn::Ident) -> bool {
-    match ty {
+    match super::peel_type(ty) {
         syn::Type::Path(type_path) if type_path.path.segments.len() == 1 => {
             type_path.path.segments.first().unwrap().ident == *ident
         }
